@@ -180,6 +180,11 @@ fn f_one<F: Fl, A: FArith<F>>(name: &str, a: &mut A, case: &FCase, wide: bool, p
         // an earlier, unrelated check node on the same arithmetic object
         let wv: Vec<F> = case.warm.iter().map(|x| F::from64(x.0 * scale)).collect();
         let _ = run_rule(name, a, &wv, &sources_for(wv.len(), case.tag ^ 0x5a5a))?;
+        // ... or through the other entry point of the same object, the layered update
+        if case.tag & 0x200 != 0 {
+            super::impls::layered_warm(a, &case.warm.iter().map(|x| x.0 * scale).collect::<Vec<f64>>());
+            p.class("after-a-layered-update");
+        }
     }
     let out = run_rule(name, a, &fv, &sources)?;
     let sum_phi: f64 = vals.iter().map(|x| phi(x.abs())).sum();
@@ -392,6 +397,10 @@ fn check_i8(case: &I8Case, p: &mut Probe) -> Check {
             let mut a = super::impls::mk(<$t>::new, case.tag & 0x100 != 0);
             if case.warm.len() >= 2 {
                 let _ = run_rule(stringify!($t), &mut a, &case.warm, &sources_for(case.warm.len(), case.tag ^ 0x5a5a))?;
+                if case.tag & 0x200 != 0 {
+                    super::impls::layered_warm(&mut a, &case.warm.iter().map(|&x| f64::from(x) / 8.0).collect::<Vec<f64>>());
+                    p.class("after-a-layered-update");
+                }
             }
             i8_check_vector(stringify!($t), &mut a, &case.vals, &sources, p)?;
             p.inner += 1;
@@ -514,7 +523,7 @@ pub fn property() -> Property {
             }),
             Box::new(Sub {
                 name: "i8-random",
-                rule: "the sixteen 8-bit types (objects built by new() or Default::default(), drawn per case), degree 3..=30 (in 60 % of the cases after an unrelated check node on the same arithmetic object), values in [-127,127] (uniform; magnitudes 90..127 and 100..127 so that partial hard-limiting triggers; small; tied minima), distinct non-monotone source tags; oracle per emitted message: exactly one per neighbour with dest = that neighbour's source; never -128; |y - 8 f(x/8)| <= 0.5 L with f the own real-valued min*-approximation (sequential fold) resp. exact box-plus (A-Min*: others for the least reliable neighbour, all inputs for every other neighbour) and L the table look-ups on the path; magnitude <= smallest other magnitude; sign = product of the other signs when the reference exceeds the tolerance; partial-hard-limit types: +-127 only if the reference >= 100 - tol, otherwise |y| < 100; non-trivial = degree >= 3 and reference >= 1 unit",
+                rule: "the sixteen 8-bit types (objects built by new() or Default::default(), drawn per case), degree 3..=30 (in 60 % of the cases after an unrelated check node on the same arithmetic object, half of these also after a layered update of an unrelated row through the same object), values in [-127,127] (uniform; magnitudes 90..127 and 100..127 so that partial hard-limiting triggers; small; tied minima), distinct non-monotone source tags; oracle per emitted message: exactly one per neighbour with dest = that neighbour's source; never -128; |y - 8 f(x/8)| <= 0.5 L with f the own real-valued min*-approximation (sequential fold) resp. exact box-plus (A-Min*: others for the least reliable neighbour, all inputs for every other neighbour) and L the table look-ups on the path; magnitude <= smallest other magnitude; sign = product of the other signs when the reference exceeds the tolerance; partial-hard-limit types: +-127 only if the reference >= 100 - tol, otherwise |y| < 100; non-trivial = degree >= 3 and reference >= 1 unit",
                 cases: |t| t.pick(300_000, 10_000_000),
                 strategy: i8_strategy,
                 check: check_i8,
